@@ -40,6 +40,7 @@ DESCRIPTION = {
 ANSWERS = ['now', 'error', 'hold', 'silent', 'drop', 'update-first', 'delayed']
 # scripted only (a case fixes the fate of the n-th request; no deviation is spent on it):
 #   at-timeout   the reply arrives at the very instant the caller's 10 s time-out expires
+#   split-slow   the reply line arrives in two TCP segments 1.6 s apart (longer than the 1 s receive granularity)
 TIMEOUT = 10.0
 
 CALLERS = {
@@ -58,6 +59,7 @@ class NodePeer:
         self.world = world
         self.buf = b''
         self.held = []
+        self.stall_until = 0.0
 
     def on_connect(self, sock):
         from vf.engines.fakesock import Refused
@@ -87,21 +89,26 @@ class NodePeer:
 
     def handle(self, sock, line):
         w = self.world
+
+        def send(data, delay=0.0):
+            # a peer stalled in the middle of a line sends everything else behind it
+            sock.deliver(data, max(delay, self.stall_until - w.sched.now))
         parts = line.split(' ', 2)
         action = parts[0]
         spec = parts[1] if len(parts) > 1 else ''
         data = json.loads(parts[2]) if len(parts) > 2 else None
         if action == '*IDN?':
-            sock.deliver(IDENT)
+            send(IDENT)
             return
         if action == 'describe':
-            sock.deliver(('describing . ' + json.dumps(DESCRIPTION) + '\n').encode())
+            send(('describing . ' + json.dumps(DESCRIPTION) + '\n').encode())
             return
         if action == 'activate':
-            sock.deliver(b'update m:value [0.5, {"t": 1.0}]\nupdate m:target [0.5, {"t": 1.0}]\nactive\n')
+            send(b'update m:value [0.5, {"t": 1.0}]\nupdate m:target [0.5, {"t": 1.0}]\nactive\n')
             # an activated node keeps sending updates (so the client's no-activity heartbeat never fires)
-            for k in range(1, 16):
-                sock.deliver(f'update m:target [{k}.25, {{"t": {k}.0}}]\n'.encode(), delay=float(k))
+            if w.periodic:
+                for k in range(1, 16):
+                    send(f'update m:target [{k}.25, {{"t": {k}.0}}]\n'.encode(), delay=float(k))
             return
         w.nreq += 1
         n = w.nreq
@@ -115,16 +122,22 @@ class NodePeer:
         release = [(h + '\n').encode() for h in self.held]
         self.held = []
         if answer == 'now':
-            sock.deliver((rep + '\n').encode())
+            send((rep + '\n').encode())
         elif answer == 'error':
             w.requests[n]['reply'] = rep = f'error_{action} {spec} ["HardwareError", "refused {n}", {{}}]'
-            sock.deliver((rep + '\n').encode())
+            send((rep + '\n').encode())
         elif answer == 'update-first':
-            sock.deliver(b'update m:value [7.5, {"t": 2.0}]\n' + (rep + '\n').encode())
+            send(b'update m:value [7.5, {"t": 2.0}]\n' + (rep + '\n').encode())
         elif answer == 'delayed':
-            sock.deliver((rep + '\n').encode(), delay=2.5)
+            send((rep + '\n').encode(), delay=2.5)
         elif answer == 'at-timeout':
-            sock.deliver((rep + '\n').encode(), delay=TIMEOUT)
+            send((rep + '\n').encode(), delay=TIMEOUT)
+        elif answer == 'split-slow':
+            data = (rep + '\n').encode()
+            cut = max(1, len(data) // 2)
+            send(data[:cut])
+            self.stall_until = w.sched.now + 1.6
+            send(data[cut:])
         elif answer == 'hold':
             self.held.append(rep)
             w.requests[n]['held'] = True
@@ -135,7 +148,7 @@ class NodePeer:
             w.drops.append(w.sched.now)
             sock.peer_close()
         for r in release:               # replies held back are released by the next request (reversed order)
-            sock.deliver(r)
+            send(r)
             for req in w.requests.values():
                 if req.get('held'):
                     req['held'] = False
@@ -154,6 +167,7 @@ class World:
         self.refused = 0
         self.accept_reconnect = False
         self.scripted = {}
+        self.periodic = True
 
 
 def execute(case, prefix):
@@ -168,6 +182,8 @@ def execute(case, prefix):
     world = World(sched, ANSWERS[:case['nanswers']])
     world.accept_reconnect = bool(case.get('reconnect'))
     world.scripted = {int(k): v for k, v in (case.get('scripted') or {}).items()}
+    # a peer that stalls in the middle of a line sends nothing else meanwhile: no pre-scheduled periodic updates in those cases
+    world.periodic = 'split-slow' not in world.scripted.values()
     net.listen('node', 10767, lambda: NodePeer(world))
     out = {'results': {}, 'disconnect': None, 'retry': {}}
 
@@ -305,7 +321,7 @@ def judge(case, sched, x, world, out):
             exc = res[1]
             answers = [world.requests[n]['answer'] for n in mine]
             disturbed = bool(world.drops) or user_disc is not None or case['shutdown'] != 'none'
-            all_prompt = all(r['answer'] in ('now', 'error', 'update-first') for r in world.requests.values())
+            all_prompt = all(r['answer'] in ('now', 'error', 'update-first', 'split-slow') for r in world.requests.values())
             if exc == 'TimeoutError' and not mine and not disturbed and all_prompt:
                 viol.append(('request-never-sent', f'caller {i} {req} timed out after {t1 - t0:g} s but the peer never received the request '
                                                    f'(peer got {[(e[1], e[2], e[3]) for e in world.events if e[0] == "peer-got"]})'))
@@ -365,6 +381,10 @@ def cases(tier):
     # 5 s later) is parked behind it: the second caller's request is answered at once and must get its reply
     res.append({'name': 'same-change/late-first', 'callers': CALLERS['same-change'], 'delays': [0.0, 5.0], 'scripted': {1: 'at-timeout'},
                 'shutdown': 'none', 'level': 'sync', 'bound': 2 if quick else 3, 'dev': 0, 'total': None, 'free': free, 'nanswers': nans})
+    # a reply arriving in two segments with a pause longer than the receive granularity
+    for cname in ('same-read', 'distinct-read'):
+        res.append({'name': f'{cname}/split-slow', 'callers': CALLERS[cname], 'scripted': {1: 'split-slow'}, 'shutdown': 'none', 'level': 'sync',
+                    'bound': 1 if quick else 2, 'dev': 0, 'total': None, 'free': free, 'nanswers': nans})
     res.append({'name': 'same-change/silent-first', 'callers': CALLERS['same-change'], 'delays': [0.0, 5.0], 'scripted': {1: 'silent'},
                 'shutdown': 'none', 'level': 'sync', 'bound': 2 if quick else 3, 'dev': 0, 'total': None, 'free': free, 'nanswers': nans})
     free = 2 if quick else 3
